@@ -32,6 +32,11 @@ func (k Keeper) ValidateMsgCreateGauge(ctx sdk.Context, msg *types.MsgCreateGaug
 		return types.ErrInvalidDepositAmount
 	}
 
+	// a gauge without epochs has no allocation: its deposit could never be handed out
+	if msg.TotalTriggers == 0 {
+		return types.ErrInvalidTotalTriggers
+	}
+
 	if msg.DepositAmount.Amount.LT(sdk.NewIntFromUint64(msg.TotalTriggers)) {
 		return types.ErrDepositSmallThanEpoch
 	}
